@@ -1,6 +1,8 @@
 package main
 
 import (
+	"strings"
+
 	"verif/idl"
 )
 
@@ -531,6 +533,25 @@ service V {
 			menum("E1", &idl.EnumValue{Name: "LOW", Value: 1, Explicit: true}, &idl.EnumValue{Name: "MID", Value: 10, Explicit: true}, mval("HIGH", 11)),
 			mexception("X"), padStruct, padSvc,
 		)}})
+
+	crModel := func() []*idl.Decl {
+		opt := mreq(mfield(2, idl.ListOf(tString), "names"), idl.ReqOptional)
+		return []*idl.Decl{
+			menum("Kind", mval("PLAIN", 0), &idl.EnumValue{Name: "FANCY", Value: 5, Explicit: true}, mval("OTHER", 6)),
+			mstruct("Item", &idl.Field{ID: 1, Name: "id", Type: tI32, Default: int64(7)}, opt),
+			mservice("Api", mmethod(idl.T("Item"), "get", mfield(1, tI32, "id"), mfield(2, idl.T("Kind"), "kind"))),
+		}
+	}
+	crText := "enum Kind {\n  PLAIN,\n  FANCY = 5,\n  OTHER\n}\n\nstruct Item {\n  1: i32 id = 7,\n  2: optional list<string> names\n}\n\nservice Api {\n  Item get(1: i32 id, 2: Kind kind)\n}\n"
+	add(lexClass{Class: "bare_cr_whitespace", Pinned: "passes",
+		Rule: "a carriage return is plain white space wherever it stands (Thrift's lexer skips [ \\t\\r\\n]*), not only directly in front of a line feed",
+		Variants: []lexVariant{
+			one("crcrlf-line-ends", strings.ReplaceAll(crText, "\n", "\r\r\n"), crModel()...),
+			one("before-indentation", strings.ReplaceAll(crText, "\n  ", "\n\r  "), crModel()...),
+			one("after-colon-and-comma", strings.ReplaceAll(strings.ReplaceAll(crText, ": ", ":\r"), ", ", ",\r"), crModel()...),
+			one("cr-only-inside-bodies", strings.ReplaceAll(crText, "\n  ", "\r  "), crModel()...),
+			one("between-all-tokens", strings.ReplaceAll(crText, " ", "\r"), crModel()...),
+		}})
 
 	td := idl.T("double")
 	add(lexClass{Class: "numeric_constant_forms", Pinned: "passes",
